@@ -21,3 +21,41 @@ __published:
   bool operator <(const Seq &o) const;
   bool __eq__(const Seq &o) const;
 };
+
+// Overloads whose one-argument forms differ in whether the parameter is named.
+class KwShortcut {
+__published:
+  KwShortcut();
+  void f(int param0);
+  void f(double);
+  void f(int a, int b);
+  void g(const char *name);
+  void g(int);
+  void g(int first, int second = 2);
+};
+
+// The call slot with several overloads, one of them taking the raw argument tuple.
+#include <Python.h>
+struct Functor {
+__published:
+  Functor();
+  int operator ()(int a);
+  int operator ()(double a, double b);
+  int operator ()(PyObject *args, PyObject *kwds);
+};
+struct Functor2 {
+__published:
+  Functor2();
+  int operator ()(int a);
+  int operator ()(const char *s);
+  int operator ()(int a, int b, int c = 3);
+};
+
+// The same name reachable through two using-directives.
+namespace UsingA { typedef unsigned long size_type; typedef int value_type; }
+namespace UsingB { typedef unsigned long size_type; typedef double value_type; }
+using namespace UsingA;
+using namespace UsingB;
+__begin_publish
+size_type using_g(size_type n);
+__end_publish
